@@ -352,10 +352,13 @@ fn collect_flow_count_flags_from_dynamic_string(
                 }
             }
             DynamicStringPart::Conditional {
+                condition,
                 when_true,
                 when_false,
-                ..
             } => {
+                if let Condition::Expression(e) = condition {
+                    collect_flow_count_flags_from_expr(e, targets);
+                }
                 collect_flow_count_flags_from_nodes(when_true, targets);
                 if let Some(nodes) = when_false {
                     collect_flow_count_flags_from_nodes(nodes, targets);
